@@ -138,6 +138,37 @@ def make_case(rnd, flat, allow, missing=False):
     return t, main
 
 
+def chain_case(rnd, depth, pad_utf8=False):
+    """main includes c1.inc, which includes c2.inc, ... `depth` files deep; every file has a line before and after its include."""
+    t = Tree(rnd)
+    t.places = ["chain%d" % depth]
+    before, after = [], []
+    for i in range(depth + 1):
+        path = VR + "/proj/main.asm" if i == 0 else VR + "/proj/c%d.inc" % i
+        b = [instr("ldi", R(16 + i % 16), E(i % 200))]
+        a = [data(1, E(i % 250), S("é%d" % i))] if i % 3 == 0 else [instr("inc", R(i % 32))]
+        inc = [line("include", p="c%d.inc" % (i + 1), abs=False)] if i < depth else [instr("sleep")]
+        t.files[path] = b + inc + a
+        before += copy.deepcopy(b)
+        after = copy.deepcopy(a) + after
+    flat = before + [instr("sleep")] + after if depth <= 32 else None
+    return t, VR + "/proj/main.asm", flat
+
+
+def straddle_case(rnd, boundary, shift):
+    """An included file in which a two-byte character lies across (shift = 1) or next to a multiple of 8 KiB."""
+    t = Tree(rnd)
+    t.places = ["straddle%d" % boundary]
+    main = VR + "/proj/main.asm"
+    text_line = data(1, S("né"), E(1))
+    body = [instr("nop")] + [line("blank") for _ in range(3)] + [text_line, instr("ret")]
+    t.files[main] = [instr("ldi", R(16), E(1)), line("include", p="big.inc", abs=False), instr("ldi", R(17), E(2))]
+    t.files[VR + "/proj/big.inc"] = body
+    t.pad = (VR + "/proj/big.inc", boundary, shift)
+    flat = [instr("ldi", R(16), E(1)), instr("nop"), copy.deepcopy(text_line), instr("ret"), instr("ldi", R(17), E(2))]
+    return t, main, flat
+
+
 def render_tree(t, root):
     """Renders every file (assigning line numbers) with the virtual root replaced by the real one."""
     texts = {}
@@ -151,6 +182,16 @@ def render_tree(t, root):
             else:
                 real.append(l)
         text = render(real)
+        pad = getattr(t, "pad", None)
+        if pad and pad[0] == vpath:
+            # lengthen the comment-only second line so that the first byte of the 'é' lands on offset boundary - shift
+            raw = text.encode("utf-8")
+            at = raw.index("é".encode("utf-8"))
+            fill = pad[1] - pad[2] - at
+            ls = text.split("\n")
+            ls[1] = "; " + "x" * (fill - 2)
+            text = "\n".join(ls)
+            assert text.encode("utf-8").index("é".encode("utf-8")) == pad[1] - pad[2]
         for l, r in zip(lines, real):
             l["ln"] = r["ln"]
         texts[vpath[len(VR) + 1:]] = text
@@ -172,6 +213,14 @@ def check(prop, tier, seed):
                 missing = (k % 10 == 9)
                 t, main = make_case(rnd, flat, allow, missing)
                 cases.append((t, main, flat, missing))
+        # chains of files nested up to the limit and one beyond; included files with a two-byte character across 8 KiB boundaries
+        for depth in (1, 2, 7, 30, 31, 32, 33):
+            t, main, flat = chain_case(rnd, depth)
+            cases.append((t, main, flat if flat is not None else [instr("nop")], flat is None))
+        for boundary in (8192, 16384, 4096, 65536):
+            for shift in (0, 1, 2):
+                t, main, flat = straddle_case(rnd, boundary, shift)
+                cases.append((t, main, flat, False))
         jobs, metas = [], []
         for i, (t, main, flat, missing) in enumerate(cases):
             root = scratch.sub("c%d" % i)
@@ -189,7 +238,9 @@ def check(prop, tier, seed):
             msg_texts = [l["txt"] for l in flat if l["k"] == "message"]
             r = res[2 * i]
             names = [l["p"] for ls in t.files.values() for l in ls if l["k"] == "include"]
-            named = r["r"] == "err" and any(nm in r.get("text", "") for nm in names if nm.startswith("nothere"))
+            # (the specification says which file is the missing one; the recorder only reports which names the text mentions)
+            miss = [nm for nm in names if nm.startswith("nothere")] or [nm for nm in names if nm == "c33.inc"]
+            named = r["r"] == "err" and any(nm in r.get("text", "") for nm in miss)
             fs = {p: {"dir": os.path.dirname(p), "lines": clean(ls)} for p, ls in t.files.items()}
             events.append({"fs": fs, "cwd": VR + "/work", "main": main, "paths": [VR + "/ext"], "devs": devs_for(flat, devices),
                            "flat": clean(flatp), "hasflat": not missing, "res": digest(r, True, msg_texts),
